@@ -30,7 +30,7 @@ NOT_REACHED = ["window lengths shorter than two sample intervals", "records long
 BUDGET = {"quick": dict(cases=6000, seconds=60, shards=4),
           "thorough": dict(cases=400000, seconds=600, shards=16)}
 REQUIRED = ["mon:tiling", "mon:window-samples-unaltered", "mon:too-long-window-refused", "mon:components-split-identically",
-            "mon:step-order", "mon:windows-match-model-pipeline", "method_events"]
+            "mon:step-order", "mon:windows-match-model-pipeline", "mon:second-pass-windows-match-model", "method_events"]
 
 FS = [10, 20, 40, 50, 75, 100, 125, 128, 150, 200, 250, 300, 500, 1000]
 EVENTS = []
@@ -270,6 +270,45 @@ def fam_preprocess(ctx, rng):
         ok = ok and worst <= 1e-9
     ctx.check(ok, "windows-match-model-pipeline", "windows differ from detrend(split(filter(orient(record))))",
               n_windows=len(wins), expected_windows=len(want), worst_relative_error=worst, **info)
+    # -- a second preprocessing pass over the SAME recording objects (they were oriented and filtered in place by the
+    #    first pass): the windows must be those of the record as it now is, re-oriented from where it now points
+    if rng.random() < 0.4:
+        corners2 = [(None, None), (0.2, None), (None, fs / 5)][int(rng.integers(0, 3))]
+        det2 = ["none", "linear", "constant"][int(rng.integers(0, 3))]
+        target2 = float(rng.choice([0.0, 30.0, 200.0, float(rng.uniform(-360, 720))]))
+        L2 = float(rng.choice([1.0, 2.0, 4.0]))
+        state = []
+        for (arrs, cur) in items:
+            # the record after pass 1: oriented and filtered in place; when no window length was given the "window"
+            # that was detrended is the record itself
+            full = model_pipeline(arrs, dt, cur, target, corners, None, det if L is None else None)[0]
+            state.append((full, cur if target is None else target))
+        st2 = hvsrpy.HvsrPreProcessingSettings(orient_to_degrees_from_north=target2, filter_corner_frequencies_in_hz=list(corners2),
+                                               window_length_in_seconds=L2, detrend=det2)
+        info2 = dict(fs=fs, first_pass=dict(target=target, corners=list(corners)), second_pass=dict(target=target2, corners=list(corners2), detrend=det2, window_length=L2))
+        try:
+            wins2 = hvsrpy.preprocess(recs, st2)
+        except ValueError:
+            wins2 = None
+        if wins2 is not None:
+            want2 = []
+            for full, cur2 in state:
+                want2.extend(model_pipeline(full, dt, cur2, target2, corners2, L2, det2))
+            ok2 = len(wins2) == len(want2)
+            worst2 = 0.0
+            if ok2:
+                for w, m in zip(wins2, want2):
+                    for name, mm in zip(("ns", "ew", "vt"), m):
+                        a = getattr(w, name).amplitude
+                        if a.shape != mm.shape:
+                            ok2 = False
+                            break
+                        worst2 = max(worst2, float(np.max(np.abs(a - mm))) / scale)
+                ok2 = ok2 and worst2 <= 1e-8
+            ctx.check(ok2, "second-pass-windows-match-model", "preprocessing the same recordings a second time does not give the "
+                      "windows of the (already oriented and filtered) records re-oriented to the new target",
+                      worst_relative_error=worst2, n_windows=len(wins2), expected_windows=len(want2), **info2)
+            ctx.nontrivial(["pre-twice", fs, target, target2, list(corners2), det2, L2])
     if len(wins) >= 2:
         ctx.nontrivial(["pre", fs, info["lengths"], list(corners), det, target, L])
     ctx.state([corners[0] is not None, corners[1] is not None, det, target is None, L])
